@@ -123,7 +123,7 @@ def rhs1d(ctx, rng, idx):
     """one real rhs evaluation on a hostile configuration; judged by the rhs monitor"""
     big = rng.random() < 0.2
     s = gen.scenario1d(rng, nmin=1 if rng.random() < 0.15 else 3, nmax=24, ratio=1e6 if big else 10.0,
-                       mach_max=3.0, intdata=0.1)
+                       mach_max=3.0, intdata=0.1, big=0.03)
     if s.mesh.ncell < 2 and s.bckind == "per" and s.rname != "extrapol1":
         pass  # single periodic cell: still must conserve
     ctx.describe(**s.desc())
@@ -191,8 +191,8 @@ def bc2d(rng, m, prim, gam):
     return bcl
 
 
-def scenario2d(rng, allper=False, nmax=6):
-    m, mdesc = gen.mesh2d(rng, nmax=nmax)
+def scenario2d(rng, allper=False, nmax=6, big=0.0):
+    m, mdesc = gen.mesh2d(rng, nmax=nmax, big=big)
     gam = float(rng.choice([1.4, 5.0 / 3.0, 1.2]))
     model = euler.euler2d(gamma=gam)
     n = m.ncell
@@ -214,7 +214,7 @@ def scenario2d(rng, allper=False, nmax=6):
 
 @group(quick=500, thorough=20000)
 def rhs2d(ctx, rng, idx):
-    m, model, disc, f, desc = scenario2d(rng, allper=rng.random() < 0.4)
+    m, model, disc, f, desc = scenario2d(rng, allper=rng.random() < 0.4, big=0.03)
     ctx.describe(**desc)
     disc.rhs(f)
     ctx.nontrivial(desc)
